@@ -55,6 +55,37 @@ func loadEngine() (*Engine, error) {
 		boxes: map[string]bool{}, ufuns: map[string]string{}, tconsts: map[string]string{}, modPath: modPath,
 		modCache: map[*ssa.Function]map[string]bool{}}
 	e.regHeap("$wm", "Int")
+	// dependency struct types are transparent only if repository code accesses their fields
+	touched := map[string]bool{}
+	for fn := range ssautil.AllFunctions(prog) {
+		if !e.isRepoFn(fn) {
+			continue
+		}
+		for _, b := range fn.Blocks {
+			for _, in := range b.Instrs {
+				switch x := in.(type) {
+				case *ssa.FieldAddr:
+					if n, ok := mustDeref(x.X.Type()).(*types.Named); ok {
+						touched[n.String()] = true
+					}
+				case *ssa.Field:
+					if n, ok := x.X.Type().(*types.Named); ok {
+						touched[n.String()] = true
+					}
+				}
+			}
+		}
+	}
+	e.sorts.autoOpaque = func(n *types.Named) bool {
+		if n.Obj().Pkg() == nil {
+			return false
+		}
+		path := n.Obj().Pkg().Path()
+		if strings.HasPrefix(path, modPath) || path == "go/ast" {
+			return false
+		}
+		return !touched[n.String()]
+	}
 	for fn := range ssautil.AllFunctions(prog) {
 		e.allFns[fn.String()] = fn
 		if e.isRepoFn(fn) && fn.Synthetic == "" {
@@ -186,7 +217,56 @@ func (e *Engine) groupHeaps(name string) []string {
 
 // preregisterHeaps declares the field/element heaps of every struct type of the
 // given packages up front, so that heap groups and havocs are complete.
+func (e *Engine) regTypeHeaps(t types.Type, depth int) {
+	if t == nil || depth > 3 {
+		return
+	}
+	switch u := t.Underlying().(type) {
+	case *types.Slice:
+		e.elemHeap(u.Elem())
+		e.regTypeHeaps(u.Elem(), depth+1)
+	case *types.Map:
+		e.mapHeaps(u)
+	case *types.Pointer:
+		el := u.Elem()
+		if info := e.sorts.structInfoOf(el); info != nil {
+			for i := range info.fields {
+				e.fieldHeap(info, i)
+			}
+		} else if a, ok := el.Underlying().(*types.Array); ok {
+			e.elemHeap(a.Elem())
+		} else if _, isStruct := el.Underlying().(*types.Struct); !isStruct || e.sorts.sortOf(el) != "" {
+			e.cellHeap(el)
+		}
+	case *types.Tuple:
+		for i := 0; i < u.Len(); i++ {
+			e.regTypeHeaps(u.At(i).Type(), depth+1)
+		}
+	}
+}
+
 func (e *Engine) preregisterHeaps() {
+	var names []string
+	for k := range e.funcs {
+		names = append(names, k)
+	}
+	sort.Strings(names)
+	for _, k := range names {
+		fn := e.funcs[k]
+		for _, p := range fn.Params {
+			e.regTypeHeaps(p.Type(), 0)
+		}
+		for _, fv := range fn.FreeVars {
+			e.regTypeHeaps(fv.Type(), 0)
+		}
+		for _, b := range fn.Blocks {
+			for _, in := range b.Instrs {
+				if v, ok := in.(ssa.Value); ok {
+					e.regTypeHeaps(v.Type(), 0)
+				}
+			}
+		}
+	}
 	for _, p := range e.prog.AllPackages() {
 		path := p.Pkg.Path()
 		if !(strings.HasPrefix(path, e.modPath) || path == "go/ast") {
